@@ -23,6 +23,9 @@ import (
 	"strings"
 	"testing"
 	"time"
+	"unsafe"
+
+	"golang.org/x/sys/unix"
 
 	"github.com/daeuniverse/dae/common"
 	"github.com/daeuniverse/dae/pkg/config_parser"
@@ -165,11 +168,31 @@ func c17B(b bool) string {
 	return "0"
 }
 
+func c17SpecTag(k reflect.Type) string {
+	switch {
+	case k == reflect.TypeFor[time.Duration]():
+		return "o"
+	case k.Kind() == reflect.String:
+		return "s"
+	case k.Kind() == reflect.Bool:
+		return "b"
+	case k.Kind() >= reflect.Int && k.Kind() <= reflect.Int64:
+		return fmt.Sprintf("i%d", k.Bits())
+	case k.Kind() >= reflect.Uint && k.Kind() <= reflect.Uint64:
+		return fmt.Sprintf("u%d", k.Bits())
+	}
+	return "o"
+}
+
 func (s *c17Schema) line() string {
 	var w []string
 	w = append(w, "schema", "K", strconv.Itoa(len(s.kinds)))
 	for _, k := range s.kinds {
-		w = append(w, c17H(fmt.Sprint(reflect.Zero(k).Interface())))
+		// zero value, and a SPECIFICATION tag for the kinds the model decodes itself instead of asking the
+		// function under test: s = string identity, b = the bool word table, i<bits>/u<bits> = Go integer
+		// literal syntax (base 0) ranged to the FIELD's type; o = oracle (durations)
+		spec := c17SpecTag(k)
+		w = append(w, c17H(fmt.Sprint(reflect.Zero(k).Interface())), spec)
 	}
 	w = append(w, "T", strconv.Itoa(len(s.structs)))
 	var oracle []string
@@ -475,9 +498,19 @@ func (g *c17CGen) field(f c17Field, d int) {
 			g.stats.Inc("cfg.mut.fn-for-scalar")
 			return
 		}
-		g.b.WriteString(f.key + ": " + g.scalarVal(f.goType) + "\n")
+		ann := ""
+		if g.r.Chance(0.03) { // an annotation on a plain declaration: accepted by the Walker, ignored by ParamParser
+			ann = " [x: y]"
+			g.stats.Inc("cfg.annotation-on-scalar")
+		}
+		g.b.WriteString(f.key + ": " + g.scalarVal(f.goType) + ann + "\n")
 		g.stats.Inc("cfg.field.scalar")
 	case 'l':
+		if g.r.Chance(0.03) { // functions where a string list is expected
+			g.b.WriteString(f.key + ": " + g.fns() + "\n")
+			g.stats.Inc("cfg.mut.fn-for-strlist")
+			return
+		}
 		switch g.r.Intn(5) {
 		case 0:
 			g.b.WriteString(f.key + " {\n")
@@ -496,12 +529,22 @@ func (g *c17CGen) field(f c17Field, d int) {
 			g.stats.Inc("cfg.field.strlist.single")
 		}
 	case 'i':
+		if g.r.Chance(0.03) { // a section where a function-or-string is expected
+			g.b.WriteString(f.key + " { x }\n")
+			g.stats.Inc("cfg.mut.section-for-iface")
+			return
+		}
 		g.b.WriteString(f.key + ": " + g.ifaceVal() + "\n")
 		g.stats.Inc("cfg.field.iface")
 	case 'f':
 		ann := ""
 		if g.r.Chance(0.4) {
 			ann = " [add_latency: 500ms" + g.pick("", ", x: y", ", z") + "]"
+		}
+		if g.r.Chance(0.04) {
+			g.b.WriteString(f.key + " { name(x) }\n") // a section where functions are expected
+			g.stats.Inc("cfg.mut.section-for-fnlist")
+			return
 		}
 		if g.r.Chance(0.1) {
 			g.b.WriteString(f.key + ": " + g.pick("x", "'a,b'") + "\n") // string where functions are expected
@@ -569,8 +612,15 @@ func (g *c17CGen) structBody(sid int, d int) {
 	}
 	if g.r.Chance(0.04) {
 		g.indent(d)
-		g.b.WriteString(g.pick("no_such_key: 1", "nope: f(x)", "nope { }") + "\n")
-		g.stats.Inc("cfg.mut.unknown-key")
+		if len(st.fields) > 0 && g.r.Chance(0.6) { // a near miss of a valid key of this struct
+			k := st.fields[g.r.Intn(len(st.fields))].key
+			k = g.pick(k+"2", k+"s", "x"+k, strings.ToUpper(k), k[:len(k)-1], strings.ToUpper(k[:1])+k[1:], k+"_")
+			g.b.WriteString(k + ": " + g.pick("1", "x", "true") + "\n")
+			g.stats.Inc("cfg.mut.unknown-key-near-miss")
+		} else {
+			g.b.WriteString(g.pick("no_such_key: 1", "nope: f(x)", "nope { }") + "\n")
+			g.stats.Inc("cfg.mut.unknown-key")
+		}
 	}
 	if g.r.Chance(0.03) {
 		g.indent(d)
@@ -628,7 +678,7 @@ func (g *c17CGen) config() string {
 			default: // string list: only the section form exists at top level
 				g.b.WriteString(sp.key + " {\n")
 				for i, n := 0, g.r.Intn(4); i < n; i++ {
-					g.b.WriteString("  " + g.pick("a", "'b c'", "k: v", "'x,y'", "tag: 'ss://LINK'", "f: g(h)", "'https://sub/link'") + "\n")
+					g.b.WriteString("  " + g.pick("a", "'b c'", "k: v", "'x,y'", "tag: 'ss://LINK'", "f: g(h)", "'https://sub/link'", "f: !g(a, k: b, c, d, e, f, h) && i(j)", "f: g(a, b, c, d, e)") + "\n")
 				}
 				if g.r.Chance(0.05) {
 					g.b.WriteString("  " + g.pick("r(x) -> y", "s { }") + "\n")
@@ -639,8 +689,15 @@ func (g *c17CGen) config() string {
 		}
 	}
 	if g.r.Chance(0.05) {
-		g.b.WriteString(g.pick("nosuch { a: b }", "Global { }", "routing2 { }") + "\n")
-		g.stats.Inc("cfg.mut.unknown-section")
+		if g.r.Chance(0.6) { // near misses of valid section names, and of "include"
+			n := g.s.specs[g.r.Intn(len(g.s.specs))].key
+			n = g.pick(n+"2", n+"s", "x"+n, strings.ToUpper(n), n[:len(n)-1], strings.ToUpper(n[:1])+n[1:], "include2", "includes", "include_optional", "Include", "includ")
+			g.b.WriteString(n + " { }\n")
+			g.stats.Inc("cfg.mut.unknown-section-near-miss")
+		} else {
+			g.b.WriteString(g.pick("nosuch { a: b }", "Global { }", "routing2 { }") + "\n")
+			g.stats.Inc("cfg.mut.unknown-section")
+		}
 	}
 	if g.r.Chance(0.1) {
 		g.b.WriteString("include { a.dae  'b/*.dae' }\n")
@@ -666,19 +723,37 @@ var c17FixedConfigs = []string{
 type c17File struct {
 	rel     string
 	dir     bool
+	link    bool // dangling symbolic link
 	perm    os.FileMode
 	content string
 }
 
 func (g *c17CGen) includeTree(root string) (files []c17File, entry string, includeVals []string) {
-	names := []string{"config.dae", "a.dae", "b.dae", "sub/c.dae", "sub/d.dae", "sub/deep/e.dae", "sub/notes.txt", "x.conf", "dir.dae", "sub/z.dae"}
+	names := []string{"config.dae", "a.dae", "b.dae", "sub/c.dae", "sub/d.dae", "sub/deep/e.dae", "sub/notes.txt", "x.conf", "dir.dae", "sub/z.dae",
+		// near misses of the ".dae" rule
+		"a.dae.bak", "A.DAE", "x.daemon", ".dae", "conf.dae/notes.txt", ".hidden.dae", "my file.dae", "config.dae.bak"}
 	entry = filepath.Join(root, "config.dae")
-	if g.r.Chance(0.08) {
+	switch k := g.r.Intn(100); {
+	case k < 8:
 		entry = filepath.Join(root, "sub", "c.dae") // the entry's directory is not the tree root
 		g.stats.Inc("inc.entry-in-subdir")
+	case k < 11:
+		entry = filepath.Join(root, "config.dae.bak") // wrong suffix on the entry itself
+		g.stats.Inc("inc.entry-wrong-suffix")
+	case k < 14:
+		entry = filepath.Join(root, "dir.dae") // the entry is a directory
+		g.stats.Inc("inc.entry-is-directory")
+	case k < 16:
+		entry = filepath.Join(root, "A.DAE")
+		g.stats.Inc("inc.entry-upper-case-suffix")
+	}
+	if g.r.Chance(0.06) {
+		files = append(files, c17File{rel: "broken.dae", link: true})
+		g.stats.Inc("inc.dangling-symlink")
 	}
 	incPool := []string{"a.dae", "b.dae", "sub/c.dae", "sub/*.dae", "*.dae", "sub/deep/e.dae", "sub/d.dae", "./a.dae", "sub/../b.dae", "../outside.dae", "sub/../../outside.dae",
 		"x.conf", "sub/notes.txt", "dir.dae", "*", "sub/*", "nonexistent.dae", "sub/[cd].dae", "sub/?.dae", "[", "config.dae", "sub/z.dae", "*/*.dae", "a.dae/", "",
+		"a.dae.bak", "A.DAE", "x.daemon", ".dae", "conf.dae/notes.txt", "conf.dae", "conf.dae/*", ".hidden.dae", "my file.dae", "*.bak", "*.DAE", "a.dae*", ".*", "broken.dae", "config.dae.bak",
 		filepath.Join(root, "a.dae"), filepath.Join(root, "sub", "*.dae"), "/etc/passwd", filepath.Join(filepath.Dir(root), "outside.dae"), filepath.Join(root, "..", filepath.Base(root), "b.dae")}
 	for _, n := range names {
 		f := c17File{rel: n, perm: 0o640}
@@ -717,7 +792,15 @@ func (g *c17CGen) includeTree(root string) (files []c17File, entry string, inclu
 				case g.r.Chance(0.03):
 					b.WriteString("  f(x) -> y\n")
 					g.stats.Inc("inc.bad-grammar")
-				case strings.ContainsAny(v, "*?[") || v == "" || g.r.Chance(0.3):
+				case g.r.Chance(0.04) && !strings.ContainsAny(v, "'"): // keyed item: Param.String gives "k:<v>"
+					b.WriteString("  k: '" + v + "'\n")
+					includeVals = append(includeVals, "k:"+v)
+					g.stats.Inc("inc.keyed-item")
+				case g.r.Chance(0.03): // function-valued item, more than five parameters: Function.String elides the rest
+					b.WriteString("  f: g(a, b, c, d, e, f, h)\n")
+					includeVals = append(includeVals, "f:g(a,b,c,d,e,...)")
+					g.stats.Inc("inc.function-item")
+				case strings.ContainsAny(v, "*?[ ") || v == "" || g.r.Chance(0.3):
 					b.WriteString("  '" + v + "'\n")
 				default:
 					b.WriteString("  " + v + "\n")
@@ -725,7 +808,7 @@ func (g *c17CGen) includeTree(root string) (files []c17File, entry string, inclu
 			}
 			b.WriteString("}\n")
 		}
-		tag := strings.NewReplacer("/", "_", ".", "_").Replace(n)
+		tag := "t" + strings.NewReplacer("/", "_", ".", "_", " ", "_").Replace(n)
 		if g.r.Chance(0.7) {
 			b.WriteString("routing {\n  pname(" + tag + ") -> direct\n  fallback: " + tag + "\n}\n")
 		}
@@ -792,12 +875,62 @@ func c17DirectedTrees(root string) []c17Directed {
 	}
 }
 
+// c17Watch observes the REAL opens of regular files below the watched directories (inotify IN_OPEN):
+// what Merger actually hands to os.Open, on success and on failure.
+type c17Watch struct {
+	fd  int
+	wds map[int32]string
+}
+
+func c17WatchStart(dirs []string) (*c17Watch, error) {
+	fd, err := unix.InotifyInit1(unix.IN_NONBLOCK | unix.IN_CLOEXEC)
+	if err != nil {
+		return nil, err
+	}
+	w := &c17Watch{fd: fd, wds: map[int32]string{}}
+	for _, d := range dirs {
+		wd, err := unix.InotifyAddWatch(fd, d, unix.IN_OPEN)
+		if err != nil {
+			unix.Close(fd)
+			return nil, err
+		}
+		w.wds[int32(wd)] = d
+	}
+	return w, nil
+}
+
+// Drain returns the paths of the non-directory files opened since the watch started, and closes it.
+func (w *c17Watch) Drain() (opened []string) {
+	defer unix.Close(w.fd)
+	buf := make([]byte, 1<<16)
+	for {
+		n, err := unix.Read(w.fd, buf)
+		if err != nil || n <= 0 {
+			break
+		}
+		for off := 0; off+unix.SizeofInotifyEvent <= n; {
+			ev := (*unix.InotifyEvent)(unsafe.Pointer(&buf[off]))
+			name := ""
+			if ev.Len > 0 {
+				name = strings.TrimRight(string(buf[off+unix.SizeofInotifyEvent:off+unix.SizeofInotifyEvent+int(ev.Len)]), "\x00")
+			}
+			if ev.Mask&unix.IN_ISDIR == 0 && ev.Mask&unix.IN_OPEN != 0 && name != "" {
+				opened = append(opened, filepath.Join(w.wds[ev.Wd], name))
+			}
+			off += unix.SizeofInotifyEvent + int(ev.Len)
+		}
+	}
+	sort.Strings(opened)
+	return opened
+}
+
 func c17MergeErrClass(err error) string {
 	msg := err.Error()
 	for _, m := range [][2]string{
 		{"circular include", "circular"}, {"must has suffix .dae", "suffix"}, {"failed in checking path", "scope"},
 		{"failed to read config file", "open"}, {"cannot include a directory", "isDir"}, {"too open", "perm"},
 		{"failed to parse config file", "parse"}, {"unsupported include grammar", "includeGrammar"}, {"syntax error in pattern", "glob"},
+		{"no such file or directory", "statErr"}, {"too many levels of symbolic links", "statErr"},
 	} {
 		if strings.Contains(msg, m[0]) {
 			return "err:" + m[1]
@@ -876,6 +1009,39 @@ func TestVerifC17Config(t *testing.T) {
 		emitC(in)
 	}
 
+	// ---- FuzzyDecode against its SPECIFICATION (bool word table, Go integer literals ranged to the type)
+	if shard == 0 {
+		decVals := []string{"", " ", "0", "1", "-0", "+0", "00", "07", "08", "0x", "0x0", "0X1f", "0b", "0b2", "0B101", "0o", "0o17", "0O8", "1_000", "1__0", "_1", "1_", "0x_1", "0_x1", "0_7", "0x1_f", "-_1", "+5", "-5", "--5", "+-5", "5+", "1e3", "1.0", "١", "１",
+			"255", "256", "-128", "-129", "127", "128", "65535", "65536", "0x10000", "4294967295", "4294967296", "2147483647", "2147483648", "-2147483648", "-2147483649",
+			"9223372036854775807", "9223372036854775808", "-9223372036854775808", "-9223372036854775809", "18446744073709551615", "18446744073709551616", "0xffffffffffffffff", "0x10000000000000000", "99999999999999999999999999",
+			"true", "TRUE", "True", "tRuE", "t", "T", "1", "y", "Y", "yes", "YES", "on", "ON", "false", "FALSE", "f", "F", "n", "no", "NO", "off", "OFF", "tru", "yess", " true", "true ", "2", "ye", "oN", "İ", "ｔｒｕｅ"}
+		for i := 0; i < 600; i++ { // random integer-like strings
+			const alpha = "0123456789abcxXoObB_+-"
+			n := 1 + r.Intn(8)
+			b := make([]byte, n)
+			for j := range b {
+				b[j] = alpha[r.Intn(len(alpha))]
+			}
+			decVals = append(decVals, string(b))
+		}
+		for k := range schema.kinds {
+			if c17SpecTag(schema.kinds[k]) == "o" {
+				continue
+			}
+			for _, v := range decVals {
+				res, ok := schema.oracle(k, v)
+				out := "err"
+				if ok {
+					out = "ok " + c17Esc(res)
+					stats.Inc("dec.accepted")
+				} else {
+					stats.Inc("dec.rejected")
+				}
+				st.Emit(fmt.Sprintf("d %d %s", k, c17H(v)), out)
+			}
+		}
+	}
+
 	// ---- lexical path functions
 	comps := []string{"a", "b", "..", ".", "", "sub", "x.dae", "..a", "...", "a.dae"}
 	np := 3000 / shards
@@ -948,12 +1114,33 @@ func TestVerifC17Config(t *testing.T) {
 			files, entry, incVals = g.includeTree(root)
 		}
 		_ = os.MkdirAll(root, 0o750)
-		_ = os.WriteFile(filepath.Join(filepath.Dir(root), "outside.dae"), []byte("node { outside }\n"), 0o600)
+		outside := filepath.Join(filepath.Dir(root), "outside.dae")
+		switch r.Intn(6) { // what lies outside the entry directory varies: readable, too open, broken, a directory, absent
+		case 0:
+			_ = os.WriteFile(outside, []byte("node { outside }\n"), 0o666)
+			_ = os.Chmod(outside, 0o666)
+			stats.Inc("inc.outside.too-open")
+		case 1:
+			_ = os.WriteFile(outside, []byte("node { outside \n"), 0o600)
+			stats.Inc("inc.outside.syntax-error")
+		case 2:
+			_ = os.MkdirAll(outside, 0o750)
+			stats.Inc("inc.outside.directory")
+		case 3:
+			stats.Inc("inc.outside.absent")
+		default:
+			_ = os.WriteFile(outside, []byte("node { outside }\n"), 0o600)
+			stats.Inc("inc.outside.readable")
+		}
 		for _, f := range files {
 			p := filepath.Join(root, f.rel)
 			_ = os.MkdirAll(filepath.Dir(p), 0o750)
 			if f.dir {
 				_ = os.MkdirAll(p, 0o750)
+				continue
+			}
+			if f.link {
+				_ = os.Symlink(filepath.Join(root, "does-not-exist"), p)
 				continue
 			}
 			_ = os.WriteFile(p, []byte(f.content), f.perm)
@@ -967,6 +1154,9 @@ func TestVerifC17Config(t *testing.T) {
 				return nil
 			}
 			kind, content := "f", ""
+			if fi.Mode()&os.ModeSymlink != 0 {
+				return nil // only dangling links are generated: os.Stat fails on them, so they are absent for the model
+			}
 			if fi.IsDir() {
 				kind = "d"
 			} else {
@@ -1002,6 +1192,17 @@ func TestVerifC17Config(t *testing.T) {
 				gw = append(gw, c17H(m))
 			}
 		}
+		var watchDirs []string
+		_ = filepath.Walk(filepath.Dir(root), func(p string, fi os.FileInfo, err error) error {
+			if err == nil && fi.IsDir() {
+				watchDirs = append(watchDirs, p)
+			}
+			return nil
+		})
+		watch, werr := c17WatchStart(watchDirs)
+		if werr != nil {
+			t.Fatalf("inotify: %v", werr)
+		}
 		out := VRecover(func() string {
 			ss, entries, err := NewMerger(entry).Merge()
 			if err != nil {
@@ -1013,10 +1214,22 @@ func TestVerifC17Config(t *testing.T) {
 			}
 			return "ok " + c17SectionsSorted(ss) + " entries=" + strings.Join(entries, ",")
 		})
-		cls := out
+		openedReal := watch.Drain()
+		for j := range openedReal {
+			if !strings.HasSuffix(openedReal[j], ".dae") {
+				stats.Inc("inc.opened.NOT-DAE")
+			}
+			if rel, err := filepath.Rel(filepath.Dir(entry), openedReal[j]); err != nil || strings.HasPrefix(rel, "..") {
+				stats.Inc("inc.opened.OUTSIDE")
+			}
+			openedReal[j] = c17Esc(openedReal[j])
+		}
+		stats.Add("inc.opened.files", len(openedReal))
+		out += " opened=" + strings.Join(openedReal, ",")
+		cls, _, _ := strings.Cut(out, " opened=")
 		if strings.HasPrefix(out, "ok") {
 			cls = "ok"
-			stats.Add("inc.files-merged", strings.Count(out, ",")+1)
+			stats.Add("inc.files-merged", strings.Count(strings.SplitN(out, " opened=", 2)[0], ",")+1)
 		}
 		stats.Inc("inc.result." + cls)
 		if i < nDirected+2 && shard == 0 {
